@@ -279,10 +279,11 @@ class ExceptionTrace(object):
         from crashtest.inspector import Inspector
 
         inspector = Inspector(exception)
-        if not inspector.frames:
-            return
 
-        self._render_trace(io, inspector.frames)
+        # An exception that was never raised has no frames: only the location
+        # is left out
+        if inspector.frames:
+            self._render_trace(io, inspector.frames)
 
         self._render_line(
             io, "<error>{}</error>".format(inspector.exception_name), True
@@ -291,8 +292,9 @@ class ExceptionTrace(object):
         exception_message = inspector.exception_message.replace("\n", "\n  ")
         self._render_line(io, self._format_message(exception_message, "<b>{}</b>"))
 
-        current_frame = inspector.frames[-1]
-        self._render_snippet(io, current_frame)
+        if inspector.frames:
+            current_frame = inspector.frames[-1]
+            self._render_snippet(io, current_frame)
 
         self._render_solution(io, inspector)
 
